@@ -38,7 +38,9 @@ MSG_NAMES = {
 FIELD_NAMES = {
     "conventional": ["value", "name", "count", "user_id", "payload", "items", "flag", "amount", "created_at", "kind"],
     "keyword": ["class", "from", "import", "in", "is", "lambda", "global", "pass", "def", "return", "async", "await", "not"],
-    "builtin": ["list", "str", "type", "bytes", "int", "float", "bool", "dict", "len", "id", "map", "self", "print", "object", "datetime", "timedelta"],
+    # list / dict / datetime / timedelta are excluded by construction (known finding: a field with one of these names
+    # shadows the type name used by (quoted) annotations of the same class; probed separately by C18)
+    "builtin": ["str", "type", "bytes", "int", "float", "bool", "len", "id", "map", "self", "print", "object", "set", "tuple"],
     "digit_after_underscore": ["address_line_1", "ipv4_address", "v_2", "field_1_2"],
     "upper_run": ["HTTPStatus", "userID", "URL", "XMLData"],
     "underscores": ["_lead", "trail_", "a__b", "x_y_z"],
@@ -102,7 +104,8 @@ def schema_ast(draw, max_packages=3, services=True, markers=True):
                 used_norm.add(norm_name(prefix_path + name))
                 used_norm.add(norm_name(name))
                 m = {"name": name, "name_class": cls, "fields": [], "nested": [], "enums": [], "oneofs": [], "marker": nxt() if markers else None,
-                     "comment": draw(st.sampled_from(["", "", "a message", "multi\nline comment", 'quote " and \\ backslash', "x" * 90]))}
+                     "comment": draw(st.sampled_from(["", "", "a message", "multi\nline comment", 'quote " and \\ backslash', "x" * 90, 'ends with a quote "',
+                                                          'has \"\"\" inside', "ends with a backslash \\", "tab\there"]))}
                 if depth < 2 and draw(st.integers(0, 2)) == 0:
                     m["nested"] = make_msgs(draw(st.integers(1, 2)), depth + 1, used_norm, prefix_path + name)
                 if draw(st.integers(0, 3)) == 0:
@@ -164,7 +167,7 @@ def schema_ast(draw, max_packages=3, services=True, markers=True):
             kind, t = draw(st.one_of(*cands))
             label = draw(st.sampled_from(["single", "single", "optional", "repeated", "map", "oneof" if oneofs else "single"]))
             f = {"name": fname, "name_class": cls, "number": number_pool[i], "kind": kind, "type": t, "label": label,
-                 "comment": draw(st.sampled_from(["", "", "", "field comment"]))}
+                 "comment": draw(st.sampled_from(["", "", "", "field comment", 'say "hi"', "path C:\\dir\\"]))}
             if label == "map":
                 f["key"] = draw(st.sampled_from(KEY_TYPES))
             if label == "oneof":
